@@ -55,7 +55,8 @@ def explore_order(job):
             g['examples'].append(v)
         out.update({'ok': True, 'states': st['states'], 'transitions': st['transitions'], 'events': st['events'], 'forks': 0,
                     'finals': st['finals'], 'capped': st['capped'], 'solver': st['solver'], 'by_eval': 0,
-                    'obligations': st['pairs'], 'discharged': st['pairs'] - len(viols), 'groups': groups, 'samples': [],
+                    'obligations': st['pairs'], 'discharged': st['pairs'] - len(viols), 'groups': groups,
+                    'samples': [dict(st['sample'], universe=job['name'])] if st.get('sample') else [],
                     'mir_blocks': rt.STEPS.total, 'wall': time.time() - t0,
                     'mon_stats': {'orders': st['orders'], 'outcome_pairs': st['pairs'], 'pairs_sent_to_solver': st['pairs_solver'],
                                   'distinct_outcomes': st['outcomes']}})
@@ -91,7 +92,8 @@ def explore_chain(job):
                                            'unsound_finals', 'followups', 'followups_without_wrong_result')}
         out.update({'ok': True, 'states': st['states'], 'transitions': st['transitions'], 'events': st['events'], 'forks': 0,
                     'finals': st['finals'], 'capped': st['capped'], 'solver': st['solver'], 'by_eval': 0,
-                    'obligations': st['obligations'], 'discharged': st['discharged'], 'groups': groups, 'samples': [],
+                    'obligations': st['obligations'], 'discharged': st['discharged'], 'groups': groups,
+                    'samples': [dict(st['sample'], universe=job['name'])] if st.get('sample') else [],
                     'mir_blocks': rt.STEPS.total, 'wall': time.time() - t0, 'mon_stats': ms})
     except rt.Unsupported as e:
         out.update({'ok': False, 'error': 'unsupported: %s' % str(e)[:300], 'trace': traceback.format_exc()[-1500:]})
@@ -117,7 +119,8 @@ def explore_size(job):
                 g['examples'].append(v)
         out.update({'ok': True, 'states': st['states'], 'transitions': st['transitions'], 'events': st['events'], 'forks': 0,
                     'finals': st['finals'], 'capped': st['capped'], 'solver': st['solver'], 'by_eval': 0,
-                    'obligations': st['obligations'], 'discharged': st['discharged'], 'groups': groups, 'samples': [],
+                    'obligations': st['obligations'], 'discharged': st['discharged'], 'groups': groups,
+                    'samples': [dict(st['sample'], universe=job['name'])] if st.get('sample') else [],
                     'mir_blocks': rt.STEPS.total, 'wall': time.time() - t0,
                     'mon_stats': {'evaluations': st['evaluations'], 'jobs_in_largest_graph': st['jobs']}})
     except rt.Unsupported as e:
